@@ -22,6 +22,17 @@ def run(ctx):
                 'conversion (which identifies the converter used) and the raised/not-raised outcome are compared.')
     ctx.assumptions = ['stack depth bounded by the configuration']
     cfg0 = open(tlc.SPEC_DIR + '/cfg/ConvStack.cfg').read()
+    # histories of ANY length: without the step bound the state space is still finite (depth and nesting bounded);
+    # TLC reaches the fixpoint and checks every invariant and action property on it (model level only - the graph
+    # is too large to execute; the binding is through the step-bounded graphs below)
+    for convs, gens, maxd in ([('{"c1","c2"}', '{"f1","f2"}', 3)] if ctx.tier == 'quick' else
+                              [('{"c1","c2"}', '{"f1","f2"}', 3), ('{"c1","c2","c4"}', '{"f1","f3"}', 3), ('{"c1","c2"}', '{"f1","f2","f3"}', 4)]):
+        cfg = cfg0.replace('@CONVS@', convs).replace('@GENS@', gens).replace('@MAXD@', str(maxd)).replace('@STEPS@', '0')
+        cfg = cfg.replace('CONSTRAINT Bound\n', '')
+        r = tlc.run('ConvStack', cfg_text=cfg, tag='ConvStack-fixpoint', timeout=3000)
+        ctx.add_tlc(r, 'ConvStack fixpoint (no step bound): convs=%s gens=%s depth and nesting <= %d - all histories of any '
+                       'length; TopWins GenNoDup Restoration RejectedChangesNothing PopOnly DisciplinedLeaveSucceeds' % (
+                           convs, gens, maxd), exhaustive=True)
     for name, convs, gens, maxd, steps in CONFIGS[ctx.tier]:
         cfg = cfg0.replace('@CONVS@', convs).replace('@GENS@', gens).replace('@MAXD@', str(maxd)).replace('@STEPS@', str(steps))
         graphcheck.run(ctx, 'ConvStack', cfg, name, ('adapters.convstack', 'make', ()),
